@@ -29,7 +29,10 @@ def if_then_else(cond, truev, falsev):
     
     if isinstance(truev, LinCombFxp):
         falsev = LinCombFxp._ensurefxp(falsev)
-    return falsev + cond * (truev - falsev)
+    ret = falsev + cond * (truev - falsev)
+    if isinstance(truev, LinCombBool) and isinstance(falsev, LinCombBool):
+        return LinCombBool(ret, False) # a choice between two booleans is a boolean
+    return ret
 
 class BranchingValues:
     def __init__(self):
